@@ -1,7 +1,7 @@
 #!/bin/sh
 # tools/runall.sh [tier] : run every check registered in MANIFEST.json once; one status line each
 tier=${1:-quick}
-cd /verif
+cd "$(dirname "$0")/.."
 for id in $(/venv/bin/python -c "import json; print(' '.join(c['property_id'] for c in json.load(open('MANIFEST.json'))['checks']))"); do
   start=$(date +%s)
   out=$(./check.py $id --tier $tier 2>&1); rc=$?
